@@ -100,6 +100,12 @@ def directed(tier):
                         {'kind': 'apply', 'tag': 'g%d' % i, 'dur': 0.3} for i in range(4)] + [
                         {'kind': 'map', 'tag': 'gm', 'n': 4, 'chunk': 1, 'dur': 0.2},
                         {'kind': 'imap', 'tag': 'gi', 'n': 3, 'chunk': 1, 'dur': 0.2}]})
+    # producers blocked on the put-lock when close() comes: their offers are
+    # either refused or carried out - never accepted and then forgotten
+    for nproc, k in ((2, 1), (1, 3)):
+        out.append({'nproc': nproc, 'maxtasks': None, 'threads': True, 'T': 2.0, 'pool_hard': None,
+                    'putlocks': True, 'blocked_producers': k, 'close_delay': 0.1,
+                    'jobs': [{'kind': 'apply', 'tag': 'pl%d' % i, 'dur': 1.0} for i in range(nproc)]})
     if tier != 'quick':
         out.append({'nproc': 3, 'maxtasks': None, 'threads': True, 'T': 2.0, 'pool_hard': 60,
                     'close_delay': 0.1, 'jobs': [
@@ -221,6 +227,12 @@ def run_spec(spec, rec):
     if obs['join_wall'] > est + 12.0:
         rec.violation('join_slow', attrs, join_wall=obs['join_wall'], work_estimate=est,
                       worst_stall=obs.get('worst_stall'), params=p)
+    for tag, how, got in obs.get('producers', []):
+        rec.count('real:producers_waiting_at_close')
+        if how == 'still_blocked':
+            rec.violation('producer_still_blocked_after_close', attrs, tag=tag, params=p)
+        elif how == 'handle' and got != ['ok', ['v', tag]]:
+            rec.violation('job_accepted_at_close_never_resolved', attrs, tag=tag, got=got, params=p)
     if p.get('grow_mid_close'):
         rec.count('real:close_during_repopulation' if obs.get('mid_reached')
                   else 'real:close_during_repopulation_not_reached')
